@@ -63,6 +63,7 @@ func TestCheck(t *testing.T) {
 		if idx%4 == 1 {
 			cancelCase(ctx, rep, rng, cfg, spec)
 		}
+		sameKeyCase(ctx, rep, rng)
 	})
 }
 
@@ -451,4 +452,120 @@ func cancelCase(ctx context.Context, rep *mon.Reporter, rng *mon.Rand, cfg mon.C
 		}
 		rep.Count("cancel_matched", 1)
 	}
+}
+
+// sameKeyCase: nested graphs / chains that reuse the same node key on adjacent nesting levels (chains do so
+// naturally: their generated keys are node_0, node_1, … at every level). The failing node's full path must
+// still be reported with every level.
+func sameKeyCase(ctx context.Context, rep *mon.Reporter, rng *mon.Rand) {
+	depth := 2 + rng.Intn(3)
+	useChain := rng.Bool()
+	keys := make([]string, depth)
+	for i := range keys {
+		keys[i] = []string{"w", "step"}[rng.Intn(2)]
+		if rng.Prob(0.25) {
+			keys[i] = fmt.Sprintf("k%d", i) // sometimes a distinct key in between
+		}
+	}
+	fail := compose.InvokableLambda(func(_ context.Context, in string) (string, error) {
+		return "", fmt.Errorf("leaf wraps: %w", gspec.ErrSentinel)
+	})
+	pass := compose.InvokableLambda(func(_ context.Context, in string) (string, error) { return in + "+", nil })
+	var want []string
+	var build func(level int) (compose.AnyGraph, error)
+	build = func(level int) (compose.AnyGraph, error) {
+		if useChain {
+			// chain: [pass, X] where X is the failing lambda (innermost) or the next chain; generated keys node_0, node_1
+			ch := compose.NewChain[string, string]()
+			ch.AppendLambda(pass)
+			if level == depth-1 {
+				ch.AppendLambda(fail)
+			} else {
+				inner, err := build(level + 1)
+				if err != nil {
+					return nil, err
+				}
+				ch.AppendGraph(inner)
+			}
+			return ch, nil
+		}
+		g := compose.NewGraph[string, string]()
+		k := keys[level]
+		var err error
+		if level == depth-1 {
+			err = g.AddLambdaNode(k, fail)
+		} else {
+			var inner compose.AnyGraph
+			inner, err = build(level + 1)
+			if err == nil {
+				err = g.AddGraphNode(k, inner)
+			}
+		}
+		if err != nil {
+			return nil, err
+		}
+		if err = g.AddEdge(compose.START, k); err != nil {
+			return nil, err
+		}
+		if err = g.AddEdge(k, compose.END); err != nil {
+			return nil, err
+		}
+		return g, nil
+	}
+	top, err := build(0)
+	if err != nil {
+		rep.Violation(ID+"/build-error/same-key", err.Error(), nil)
+		return
+	}
+	for level := 0; level < depth; level++ {
+		if useChain {
+			want = append(want, "node_1")
+		} else {
+			want = append(want, keys[level])
+		}
+	}
+	var runErr error
+	p := mon.Safe(func() {
+		if useChain {
+			r, err := top.(*compose.Chain[string, string]).Compile(ctx)
+			if err != nil {
+				runErr = fmt.Errorf("compile: %w", err)
+				return
+			}
+			_, runErr = r.Invoke(ctx, "x")
+		} else {
+			r, err := top.(*compose.Graph[string, string]).Compile(ctx)
+			if err != nil {
+				runErr = fmt.Errorf("compile: %w", err)
+				return
+			}
+			_, runErr = r.Invoke(ctx, "x")
+		}
+	})
+	rep.AddEvaluations(1)
+	rep.Count("same_key_runs", 1)
+	wit := map[string]any{"chain": useChain, "keys": want}
+	if p != nil || runErr == nil || strings.HasPrefix(runErr.Error(), "compile:") {
+		rep.Violation(ID+"/same-key/unexpected-outcome", fmt.Sprint(p, runErr), wit)
+		return
+	}
+	if !errors.Is(runErr, gspec.ErrSentinel) {
+		rep.Violation(ID+"/not-unwrappable/errors.Is/same-key/"+wrapSite(runErr), runErr.Error(), wit)
+		return
+	}
+	ms := pathRe.FindAllStringSubmatch(runErr.Error(), -1)
+	got := "none"
+	if len(ms) > 0 {
+		got = ms[len(ms)-1][1]
+	}
+	if got != strings.Join(want, ", ") {
+		kind := "graphs"
+		if useChain {
+			kind = "chains"
+		}
+		rep.Violation(ID+"/node-path/same-key-on-adjacent-levels/"+kind, fmt.Sprintf("the error names the path %q, the failing node's path is %q\n%s", got, strings.Join(want, ", "), runErr.Error()), wit)
+		return
+	}
+	rep.Count("node_paths_checked", 1)
+	rep.NonTrivial(fmt.Sprintf("samekey|%v|%v", useChain, want))
 }
